@@ -220,7 +220,14 @@ func (sms *sqlMetadataStore) AppendObject(ctx context.Context, tx *sql.Tx, bucke
 		if !*updated {
 			return nil, metadatastore.ErrCASFailure
 		}
-		if err = sms.savePartRows(ctx, tx, *updatedEntity.Id, obj.Parts[len(existingParts):], len(existingParts)); err != nil {
+		// Objects completed from a multipart upload keep their 1-based part
+		// numbers as sequence numbers, so the next free sequence number is the
+		// one after the last existing part, not the part count.
+		nextSequenceNumber := len(existingParts)
+		if len(existingParts) > 0 {
+			nextSequenceNumber = existingParts[len(existingParts)-1].SequenceNumber + 1
+		}
+		if err = sms.savePartRows(ctx, tx, *updatedEntity.Id, obj.Parts[len(existingParts):], nextSequenceNumber); err != nil {
 			return nil, err
 		}
 		return &metadatastore.PartMutationResult{}, nil
